@@ -316,3 +316,378 @@ Proof.
     { apply filter_In. split; assumption. }
     rewrite Hf in Hi. destruct Hi as [Hi|[]]. inversion Hi. congruence.
 Qed.
+
+(* ---------------------------------------------------------------------------------------------- *)
+(* process_metadata: de-duplication                                                               *)
+(* ---------------------------------------------------------------------------------------------- *)
+Lemma list_str_eqb_eq : forall a b, list_str_eqb a b = true <-> a = b.
+Proof.
+  induction a as [|x a IH]; destruct b as [|y b]; simpl; split; intros H; try reflexivity; try discriminate.
+  - apply andb_true_iff in H. destruct H as [H1 H2]. apply String.eqb_eq in H1. apply IH in H2. now subst.
+  - inversion H; subst. rewrite String.eqb_refl. simpl. now apply IH.
+Qed.
+
+Lemma pyval_eqb_eq : forall a b, pyval_eqb a b = true <-> a = b.
+Proof.
+  destruct a as [x|x], b as [y|y]; simpl; split; intros H; try discriminate.
+  - apply String.eqb_eq in H. now subst.
+  - inversion H. apply String.eqb_refl.
+  - apply list_str_eqb_eq in H. now subst.
+  - inversion H. now apply list_str_eqb_eq.
+Qed.
+
+Lemma vals_eqb_eq : forall a b, vals_eqb a b = true <-> a = b.
+Proof.
+  induction a as [|[k v] a IH]; destruct b as [|[k' v'] b]; simpl; split; intros H; try reflexivity; try discriminate.
+  - apply andb_true_iff in H. destruct H as [H H3]. apply andb_true_iff in H. destruct H as [H1 H2].
+    apply String.eqb_eq in H1. apply pyval_eqb_eq in H2. apply IH in H3. now subst.
+  - inversion H; subst. rewrite String.eqb_refl. simpl.
+    rewrite (proj2 (pyval_eqb_eq v' v') eq_refl). simpl. now apply IH.
+Qed.
+
+Lemma block_eqb_eq : forall a b, block_eqb a b = true <-> a = b.
+Proof.
+  intros [n1 v1] [n2 v2]. unfold block_eqb. simpl. split; intros H.
+  - apply andb_true_iff in H. destruct H as [H1 H2].
+    apply pyval_eqb_eq in H1. apply vals_eqb_eq in H2. now subst.
+  - inversion H; subst. rewrite (proj2 (pyval_eqb_eq n2 n2) eq_refl). simpl. now apply vals_eqb_eq.
+Qed.
+
+Definition names (l : list block) : list pyval := map b_name l.
+
+Definition has_name (nm : pyval) (acc : list block) : bool :=
+  existsb (fun b => pyval_eqb (b_name b) nm) acc.
+
+(* the specification: a block is kept iff no earlier block has its name *)
+Definition add1 (acc : list block) (s : block) : list block :=
+  if has_name (b_name s) acc then acc else acc ++ [s].
+Definition first_by_name (specs : list block) : list block := fold_left add1 specs [].
+
+(* the InjectCodeBlock instances of the non-empty inject_code dictionaries, in order *)
+Fixpoint specs_of (fields : list string) (md : list raw) : result (list block) :=
+  match md with
+  | [] => OK []
+  | info :: r =>
+      match info with
+      | [] => specs_of fields r
+      | _ => match mk_block fields info with
+             | Error e => Error e
+             | OK b => match specs_of fields r with OK l => OK (b :: l) | Error e => Error e end
+             end
+      end
+  end.
+
+Definition consistent (specs : list block) : Prop :=
+  forall a b, In a specs -> In b specs -> b_name a = b_name b -> a = b.
+
+Lemma has_name_true : forall nm acc, has_name nm acc = true <-> exists b, In b acc /\ b_name b = nm.
+Proof.
+  intros nm acc. unfold has_name. rewrite existsb_exists. split; intros [b [Hi Hb]]; exists b; split; try assumption.
+  - now apply pyval_eqb_eq.
+  - now apply pyval_eqb_eq.
+Qed.
+
+Lemma has_name_false : forall nm acc, has_name nm acc = false <-> ~ In nm (names acc).
+Proof.
+  intros nm acc. split.
+  - intros H Hin. apply in_map_iff in Hin. destruct Hin as [b [Hb Hi]].
+    assert (Ht : has_name nm acc = true) by (apply has_name_true; eauto). congruence.
+  - intros H. destruct (has_name nm acc) eqn:E; [|reflexivity]. exfalso. apply H.
+    apply has_name_true in E. destruct E as [b [Hi Hb]]. apply in_map_iff. eauto.
+Qed.
+
+Lemma NoDup_names_inj : forall l a b,
+  NoDup (names l) -> In a l -> In b l -> b_name a = b_name b -> a = b.
+Proof.
+  induction l as [|x l IH]; simpl; intros a b Hnd Ha Hb Hn; [contradiction|].
+  inversion Hnd as [|? ? Hx Hnd']; subst.
+  destruct Ha as [Ha|Ha], Hb as [Hb|Hb]; subst.
+  - reflexivity.
+  - exfalso. apply Hx. rewrite Hn. now apply in_map.
+  - exfalso. apply Hx. rewrite <- Hn. now apply in_map.
+  - now apply IH.
+Qed.
+
+Lemma ok_to_add_consistent : forall spec acc,
+  (forall b, In b acc -> b_name b = b_name spec -> b = spec) ->
+  ok_to_add spec acc = OK (negb (has_name (b_name spec) acc)).
+Proof.
+  induction acc as [|b acc IH]; simpl; intros H; [reflexivity|].
+  destruct (pyval_eqb (b_name b) (b_name spec)) eqn:En.
+  - apply pyval_eqb_eq in En. rewrite (H b (or_introl eq_refl) En).
+    now rewrite (proj2 (block_eqb_eq spec spec) eq_refl).
+  - simpl. apply IH. intros b' Hi. apply H. now right.
+Qed.
+
+Lemma ok_to_add_sound : forall spec acc r,
+  NoDup (names acc) -> ok_to_add spec acc = OK r ->
+  r = negb (has_name (b_name spec) acc) /\ (forall b, In b acc -> b_name b = b_name spec -> b = spec).
+Proof.
+  induction acc as [|b acc IH]; simpl; intros r Hnd H.
+  - inversion H. split; [reflexivity | intros b []].
+  - inversion Hnd as [|? ? Hx Hnd']; subst.
+    destruct (pyval_eqb (b_name b) (b_name spec)) eqn:En.
+    + destruct (block_eqb b spec) eqn:Eb; [|discriminate]. inversion H; subst.
+      apply block_eqb_eq in Eb. subst b. split; [reflexivity|].
+      intros b' [Hb'|Hb'] Hn; [now symmetry|]. exfalso. apply Hx. rewrite <- Hn. now apply in_map.
+    + simpl. destruct (IH r Hnd' H) as [Hr Hall]. split; [assumption|].
+      intros b' [Hb'|Hb'] Hn; [|now apply Hall]. subst b'.
+      rewrite (proj2 (pyval_eqb_eq _ _) Hn) in En. discriminate.
+Qed.
+
+Lemma ok_to_add_err : forall spec acc e,
+  ok_to_add spec acc = Error e ->
+  e = ErrValue /\ exists b, In b acc /\ b_name b = b_name spec /\ b <> spec.
+Proof.
+  induction acc as [|b acc IH]; simpl; intros e H; [discriminate|].
+  destruct (pyval_eqb (b_name b) (b_name spec)) eqn:En.
+  - destruct (block_eqb b spec) eqn:Eb; [discriminate|]. inversion H. split; [reflexivity|].
+    exists b. split; [now left|]. split; [now apply pyval_eqb_eq|].
+    intros ->. rewrite (proj2 (block_eqb_eq spec spec) eq_refl) in Eb. discriminate.
+  - destruct (IH e H) as [He [b' [Hi Hb']]]. split; [assumption|]. exists b'. split; [now right | assumption].
+Qed.
+
+Lemma mk_block_err : forall fields info e, mk_block fields info = Error e -> e = ErrValue.
+Proof.
+  intros fields info e. unfold mk_block.
+  destruct (forallb _ info); [|intros H; now inversion H].
+  destruct (lookup "name" info); intros H; now inversion H.
+Qed.
+
+Lemma fold_add1_prefix : forall specs acc, exists ext, fold_left add1 specs acc = acc ++ ext.
+Proof.
+  induction specs as [|s specs IH]; intros acc; simpl.
+  - exists []. now rewrite app_nil_r.
+  - unfold add1 at 2. destruct (has_name (b_name s) acc).
+    + apply IH.
+    + destruct (IH (acc ++ [s])) as [ext He]. exists ([s] ++ ext). now rewrite He, app_assoc.
+Qed.
+
+Lemma fold_add1_incl : forall specs acc b, In b (fold_left add1 specs acc) -> In b acc \/ In b specs.
+Proof.
+  induction specs as [|s specs IH]; intros acc b H; simpl in *; [now left|].
+  apply IH in H. destruct H as [H|H]; [|right; now right].
+  unfold add1 in H. destruct (has_name (b_name s) acc); [now left|].
+  apply in_app_or in H. destruct H as [H|[H|[]]]; [now left | right; now left].
+Qed.
+
+Lemma fold_add1_covers : forall specs acc s,
+  In s specs -> exists b, In b (fold_left add1 specs acc) /\ b_name b = b_name s.
+Proof.
+  induction specs as [|x specs IH]; intros acc s H; simpl in *; [contradiction|].
+  destruct H as [H|H]; [subst x | now apply IH].
+  destruct (fold_add1_prefix specs (add1 acc s)) as [ext He]. rewrite He.
+  unfold add1. destruct (has_name (b_name s) acc) eqn:E.
+  - apply has_name_true in E. destruct E as [b [Hi Hb]]. exists b. split; [apply in_or_app; now left | assumption].
+  - exists s. split; [|reflexivity]. apply in_or_app. left. apply in_or_app. right. now left.
+Qed.
+
+Lemma names_app : forall a b, names (a ++ b) = names a ++ names b.
+Proof. intros. unfold names. apply map_app. Qed.
+
+Lemma NoDup_snoc : forall (A : Type) (l : list A) x, NoDup l -> ~ In x l -> NoDup (l ++ [x]).
+Proof.
+  induction l as [|y l IH]; simpl; intros x Hnd Hx.
+  - constructor; [intros [] | constructor].
+  - inversion Hnd; subst. constructor.
+    + intros Hin. apply in_app_or in Hin. destruct Hin as [Hin|[Hin|[]]]; [contradiction|]. subst. apply Hx. now left.
+    + apply IH; [assumption|]. intros Hin. apply Hx. now right.
+Qed.
+
+Lemma process_ok : forall fields md acc blocks,
+  NoDup (names acc) -> process fields md acc = OK blocks ->
+  exists specs, specs_of fields md = OK specs
+    /\ blocks = fold_left add1 specs acc
+    /\ NoDup (names blocks)
+    /\ (forall s, In s specs -> forall b, In b blocks -> b_name b = b_name s -> b = s).
+Proof.
+  induction md as [|info md IH]; intros acc blocks Hnd H.
+  - simpl in H. inversion H; subst. exists []. simpl. repeat split; try assumption. intros s [].
+  - simpl in H. destruct info as [|kv info'].
+    + destruct (IH acc blocks Hnd H) as [specs Hs]. exists specs. simpl. exact Hs.
+    + remember (kv :: info') as info eqn:Ei.
+      destruct (mk_block fields info) as [spec|e] eqn:Em; [|discriminate].
+      destruct (ok_to_add spec acc) as [r|e] eqn:Eo; [|discriminate].
+      destruct (ok_to_add_sound spec acc r Hnd Eo) as [Hr Hsame].
+      assert (Hspecs : forall specs', specs_of fields md = OK specs' -> specs_of fields (info :: md) = OK (spec :: specs')).
+      { intros specs' Hs'. simpl. rewrite Ei. rewrite <- Ei. rewrite Em, Hs'. reflexivity. }
+      destruct r.
+      * (* a new name: appended *)
+        symmetry in Hr. apply negb_true_iff in Hr.
+        assert (Hnd' : NoDup (names (acc ++ [spec]))).
+        { rewrite names_app. simpl. apply NoDup_snoc; [assumption|]. now apply has_name_false. }
+        destruct (IH (acc ++ [spec]) blocks Hnd' H) as [specs' (Hs' & Hb & Hndb & Hall)].
+        exists (spec :: specs'). split; [now apply Hspecs|]. split.
+        { simpl. unfold add1 at 2. now rewrite Hr. }
+        split; [assumption|].
+        intros s [Hs|Hs] b Hib Hn; [subst s | now apply (Hall s Hs)].
+        apply (NoDup_names_inj blocks); try assumption.
+        destruct (fold_add1_prefix specs' (acc ++ [spec])) as [ext He]. rewrite Hb, He.
+        apply in_or_app. left. apply in_or_app. right. now left.
+      * (* an identical earlier block: skipped *)
+        symmetry in Hr. apply negb_false_iff in Hr.
+        destruct (IH acc blocks Hnd H) as [specs' (Hs' & Hb & Hndb & Hall)].
+        exists (spec :: specs'). split; [now apply Hspecs|]. split.
+        { simpl. unfold add1 at 2. now rewrite Hr. }
+        split; [assumption|].
+        intros s [Hs|Hs] b Hib Hn; [subst s | now apply (Hall s Hs)].
+        apply has_name_true in Hr. destruct Hr as [b0 [Hi0 Hn0]].
+        pose proof (Hsame b0 Hi0 Hn0) as ->.
+        apply (NoDup_names_inj blocks); try assumption.
+        destruct (fold_add1_prefix specs' acc) as [ext He]. rewrite Hb, He.
+        apply in_or_app. now left.
+Qed.
+
+Lemma process_complete : forall fields md acc specs,
+  specs_of fields md = OK specs ->
+  (forall s, In s specs -> forall b, In b acc -> b_name b = b_name s -> b = s) ->
+  consistent specs ->
+  process fields md acc = OK (fold_left add1 specs acc).
+Proof.
+  induction md as [|info md IH]; intros acc specs Hs Hacc Hc.
+  - simpl in Hs. inversion Hs; subst. reflexivity.
+  - simpl in Hs. simpl. destruct info as [|kv info'].
+    + now apply IH.
+    + remember (kv :: info') as info eqn:Ei.
+      destruct (mk_block fields info) as [spec|e] eqn:Em; [|discriminate].
+      destruct (specs_of fields md) as [specs'|e] eqn:Es; [|discriminate].
+      inversion Hs; subst specs.
+      rewrite (ok_to_add_consistent spec acc); [|intros b Hi Hn; apply (Hacc spec (or_introl eq_refl) b Hi Hn)].
+      simpl. unfold add1 at 2.
+      assert (Hc' : consistent specs').
+      { intros a b Ha Hb. apply Hc; now right. }
+      destruct (has_name (b_name spec) acc) eqn:Eh; simpl.
+      * apply IH; [reflexivity | | assumption]. intros s Hi. apply Hacc. now right.
+      * apply IH; [reflexivity | | assumption].
+        intros s Hi b Hib Hn. apply in_app_or in Hib. destruct Hib as [Hib|[Hib|[]]].
+        -- apply (Hacc s (or_intror Hi) b Hib Hn).
+        -- subst b. apply Hc; [now left | now right | assumption].
+Qed.
+
+Theorem dedup_ok_iff : forall fields md blocks,
+  dedup fields md = OK blocks <->
+  exists specs, specs_of fields md = OK specs /\ consistent specs /\ blocks = first_by_name specs.
+Proof.
+  intros fields md blocks. unfold dedup, first_by_name. split.
+  - intros H. destruct (process_ok fields md [] blocks (NoDup_nil _) H) as [specs (Hs & Hb & Hnd & Hall)].
+    exists specs. split; [assumption|]. split; [|assumption].
+    intros a b Ha Hb' Hn.
+    destruct (fold_add1_covers specs [] a Ha) as [blk [Hi Hblk]]. rewrite <- Hb in Hi.
+    rewrite <- (Hall a Ha blk Hi Hblk). apply (Hall b Hb' blk Hi). congruence.
+  - intros [specs (Hs & Hc & ->)]. apply process_complete; try assumption. intros s _ b [].
+Qed.
+
+Lemma process_err : forall fields md acc e, process fields md acc = Error e -> e = ErrValue.
+Proof.
+  induction md as [|info md IH]; intros acc e H; simpl in H; [discriminate|].
+  destruct info as [|kv info']; [now apply (IH acc)|].
+  remember (kv :: info') as info eqn:Ei.
+  destruct (mk_block fields info) as [spec|e'] eqn:Em.
+  - destruct (ok_to_add spec acc) as [[|]|e''] eqn:Eo.
+    + now apply (IH (acc ++ [spec])).
+    + now apply (IH acc).
+    + inversion H; subst. now destruct (ok_to_add_err _ _ _ Eo).
+  - inversion H; subst. eapply mk_block_err; eassumption.
+Qed.
+
+Theorem dedup_err_class : forall fields md e, dedup fields md = Error e -> e = ErrValue.
+Proof. intros fields md e. apply process_err. Qed.
+
+Lemma specs_of_In : forall fields md specs,
+  specs_of fields md = OK specs ->
+  (forall info, In info md -> info <> [] -> exists b, mk_block fields info = OK b /\ In b specs)
+  /\ (forall b, In b specs -> exists info, In info md /\ info <> [] /\ mk_block fields info = OK b).
+Proof.
+  induction md as [|info md IH]; intros specs H; simpl in H.
+  - inversion H; subst. split; [intros info [] | intros b []].
+  - destruct info as [|kv info'].
+    + destruct (IH specs H) as [H1 H2]. split.
+      * intros info [Hi|Hi] Hne; [subst; congruence | now apply H1].
+      * intros b Hb. destruct (H2 b Hb) as [info (Hi & Hne & Hm)]. exists info. split; [now right | now split].
+    + remember (kv :: info') as info eqn:Ei.
+      destruct (mk_block fields info) as [spec|e] eqn:Em; [|discriminate].
+      destruct (specs_of fields md) as [specs'|e] eqn:Es; [|discriminate].
+      inversion H; subst specs. destruct (IH specs' eq_refl) as [H1 H2]. split.
+      * intros info0 [Hi|Hi] Hne.
+        -- subst info0. exists spec. split; [assumption | now left].
+        -- destruct (H1 info0 Hi Hne) as [b [Hm Hb]]. exists b. split; [assumption | now right].
+      * intros b [Hb|Hb].
+        -- subst b. exists info. split; [now left|]. split; [rewrite Ei; discriminate | assumption].
+        -- destruct (H2 b Hb) as [info0 (Hi & Hne & Hm)]. exists info0. split; [now right | now split].
+Qed.
+
+(* every non-empty dictionary is represented by exactly one kept block, equal to it; nothing else is kept *)
+Theorem dedup_once : forall fields md blocks,
+  dedup fields md = OK blocks ->
+  NoDup (names blocks)
+  /\ (forall info, In info md -> info <> [] -> exists b, mk_block fields info = OK b /\ In b blocks)
+  /\ (forall b, In b blocks -> exists info, In info md /\ info <> [] /\ mk_block fields info = OK b).
+Proof.
+  intros fields md blocks H. unfold dedup in H.
+  destruct (process_ok fields md [] blocks (NoDup_nil _) H) as [specs (Hs & Hb & Hnd & Hall)].
+  destruct (specs_of_In fields md specs Hs) as [H1 H2].
+  split; [assumption|]. split.
+  - intros info Hi Hne. destruct (H1 info Hi Hne) as [b [Hm Hib]]. exists b. split; [assumption|].
+    destruct (fold_add1_covers specs [] b Hib) as [blk [Hiblk Hn]]. rewrite <- Hb in Hiblk.
+    now rewrite <- (Hall b Hib blk Hiblk Hn).
+  - intros b Hib. apply H2. rewrite Hb in Hib. apply fold_add1_incl in Hib. destruct Hib as [[]|Hib]. assumption.
+Qed.
+
+(* without repeated names nothing is dropped or reordered *)
+Lemma fold_add1_nodup : forall specs acc,
+  NoDup (names (acc ++ specs)) -> fold_left add1 specs acc = acc ++ specs.
+Proof.
+  induction specs as [|s specs IH]; intros acc H; simpl; [now rewrite app_nil_r|].
+  assert (Hs : has_name (b_name s) acc = false).
+  { apply has_name_false. rewrite names_app in H. simpl in H.
+    apply NoDup_remove_2 in H. intros Hin. apply H. apply in_or_app. now left. }
+  unfold add1 at 2. rewrite Hs.
+  rewrite IH; rewrite <- app_assoc; simpl; [reflexivity | assumption].
+Qed.
+
+Theorem dedup_distinct_names : forall fields md specs,
+  specs_of fields md = OK specs -> NoDup (names specs) -> dedup fields md = OK specs.
+Proof.
+  intros fields md specs Hs Hnd. apply dedup_ok_iff. exists specs. split; [assumption|]. split.
+  - intros a b Ha Hb Hn. now apply (NoDup_names_inj specs).
+  - unfold first_by_name. now rewrite fold_add1_nodup.
+Qed.
+
+(* same name, different content: ValueError *)
+Theorem dedup_conflict : forall fields md specs a b,
+  specs_of fields md = OK specs -> In a specs -> In b specs -> b_name a = b_name b -> a <> b ->
+  dedup fields md = Error ErrValue.
+Proof.
+  intros fields md specs a b Hs Ha Hb Hn Hne.
+  destruct (dedup fields md) as [blocks|e] eqn:E.
+  - exfalso. apply dedup_ok_iff in E. destruct E as [specs' (Hs' & Hc & _)].
+    rewrite Hs in Hs'. inversion Hs'; subst specs'. apply Hne. now apply Hc.
+  - now rewrite (dedup_err_class _ _ _ E).
+Qed.
+
+Lemma specs_of_err : forall fields md info e,
+  In info md -> info <> [] -> mk_block fields info = Error e -> forall specs, specs_of fields md <> OK specs.
+Proof.
+  intros fields md info e Hi Hne Hm specs Hs.
+  destruct (specs_of_In fields md specs Hs) as [H1 _].
+  destruct (H1 info Hi Hne) as [b [Hb _]]. congruence.
+Qed.
+
+(* an unknown field, or no name: ValueError *)
+Theorem dedup_bad_item : forall fields md info,
+  In info md -> info <> [] ->
+  ((exists k v, In (k, v) info /\ k <> "name" /\ ~ In k fields) \/ lookup "name" info = None) ->
+  dedup fields md = Error ErrValue.
+Proof.
+  intros fields md info Hi Hne Hbad.
+  assert (Hm : mk_block fields info = Error ErrValue).
+  { unfold mk_block. destruct (forallb _ info) eqn:Ef; [|reflexivity].
+    destruct Hbad as [[k [v (Hin & Hk & Hf)]]|Hn]; [|now rewrite Hn].
+    exfalso. rewrite forallb_forall in Ef. specialize (Ef (k, v) Hin). simpl in Ef.
+    destruct (String.eqb k "name") eqn:E; [apply String.eqb_eq in E; contradiction|].
+    apply mem_str_In in Ef. contradiction. }
+  destruct (dedup fields md) as [blocks|e] eqn:E.
+  - exfalso. apply dedup_ok_iff in E. destruct E as [specs (Hs & _)].
+    now apply (specs_of_err fields md info ErrValue Hi Hne Hm specs).
+  - now rewrite (dedup_err_class _ _ _ E).
+Qed.
